@@ -2,3 +2,4 @@ import BB.Model
 import BB.Generated.Tables
 import BB.Props.Tables
 import BB.Props.C01
+import BB.Props.C07
